@@ -20,6 +20,9 @@ extern "C" void stub_success(Interpret const *) { successes++; }
 extern "C" PTRef stub_parseTerm(Interpret *, ASTNode const *, LetRecords *) { return PTRef{parse_result}; }
 static uint32_t cur_level;
 extern "C" std::size_t stub_getAssertionLevel(MainSolver const *) { return cur_level; }
+// name rollback entry points of the proposed repair (harness/C19/proposed_name_rollback.diff); names are the subject of named_assert.cc
+extern "C" std::size_t stub_getTermNamesCount(MainSolver const *) { return 0; }
+extern "C" void stub_forgetTermNamesSince(MainSolver *, std::size_t) {}
 extern "C" void stub_insertFormula(MainSolver *, PTRef t) {
     if (throw_on_insert) throw ApiException("Top-level assertion sort must be Bool");
     if (inserted_n < 4) inserted[inserted_n] = t.x;
